@@ -989,8 +989,14 @@ impl BuiltInFunction {
                 };
 
                 let result: Primitive = match this {
-                    Primitive::Int(i32) => Primitive::Int(i32.abs()),
-                    Primitive::BigInt(i128) => Primitive::BigInt(i128.abs()),
+                    Primitive::Int(i32) => Primitive::Int(
+                        i32.checked_abs()
+                            .with_context(|| format!("integer overflow: `{i32}` has no absolute value of its type"))?,
+                    ),
+                    Primitive::BigInt(i128) => Primitive::BigInt(
+                        i128.checked_abs()
+                            .with_context(|| format!("integer overflow: `{i128}` has no absolute value of its type"))?,
+                    ),
                     Primitive::Byte(u8) => Primitive::Byte(*u8),
                     Primitive::Float(f64) => Primitive::Float(f64.abs()),
                     bad => unreachable!("{bad}"),
